@@ -3,6 +3,7 @@ package gorilla
 import (
 	"context"
 	"io"
+	"sync"
 	"time"
 
 	"github.com/aptpod/iscp-go/transport"
@@ -13,6 +14,20 @@ import (
 // Connは、 gorilla/websocketのConnのラッパーです。
 type Conn struct {
 	wsconn *gwebsocket.Conn
+	// gorilla/websocket supports only one concurrent writer; Transport.Write is called concurrently.
+	writeMu sync.Mutex
+}
+
+// lockedWriter releases the connection's write lock when the message writer is closed.
+type lockedWriter struct {
+	io.WriteCloser
+	once   sync.Once
+	unlock func()
+}
+
+func (w *lockedWriter) Close() error {
+	defer w.once.Do(w.unlock)
+	return w.WriteCloser.Close()
 }
 
 // Newは、Connを返却します。
@@ -44,21 +59,22 @@ func (c *Conn) Reader(ctx context.Context) (websocket.MessageType, io.Reader, er
 
 // Writerは、WebSocketのWriterを取得します。
 func (c *Conn) Writer(ctx context.Context, tp websocket.MessageType) (io.WriteCloser, error) {
+	var gtp int
 	switch tp {
 	case websocket.MessageBinary:
-		res, err := c.wsconn.NextWriter(gwebsocket.BinaryMessage)
-		if err != nil {
-			return nil, handlerError(err)
-		}
-		return res, nil
+		gtp = gwebsocket.BinaryMessage
 	case websocket.MessageText:
-		res, err := c.wsconn.NextWriter(gwebsocket.TextMessage)
-		if err != nil {
-			return nil, handlerError(err)
-		}
-		return res, nil
+		gtp = gwebsocket.TextMessage
+	default:
+		panic("unreachable")
 	}
-	panic("unreachable")
+	c.writeMu.Lock()
+	res, err := c.wsconn.NextWriter(gtp)
+	if err != nil {
+		c.writeMu.Unlock()
+		return nil, handlerError(err)
+	}
+	return &lockedWriter{WriteCloser: res, unlock: c.writeMu.Unlock}, nil
 }
 
 // Closeは、WebSocketをクローズします。
